@@ -204,4 +204,8 @@ class SegwitChecker(SolutionChecker):
                     "this version witness program not yet supported",
                     errno.DISCOURAGE_UPGRADABLE_WITNESS_PROGRAM,
                 )
+            else:
+                # unknown witness versions are anyone-can-spend: the result is
+                # a single true value whatever the earlier scripts left behind
+                return b"", [self.VM.VM_TRUE], flags, None  # type: ignore[attr-defined]
         return None
